@@ -17,7 +17,7 @@ func init() {
 		Rule: "seeded histories over {batch, txn, create, delete, rename, re-create, Cleandeleted(), restart} on names da..dd sharing 3-4 entity ids; after every op: catalogue, deleted names unreachable, every live dataset compared with the incarnation model (listing, feed, lookups, relations), scoped snapshot of every unrelated dataset identical before/after each management op (hub-vs-hub), raw key scan after GC, reads through a contextual store created before the deletions. Non-trivial = the history deletes or renames a dataset",
 		Assumptions: append([]string{"crash points inside create/rename/delete are exercised by the C04 crash protocol, not here",
 			"hub-vs-hub snapshots use incoming queries only with a concrete predicate and single-dataset scope (outside the open C03 findings)"}, assumeStore...),
-		Stages: mgStages("C07,C01,C02,C03", 16, 12, 16, 250)}
+		Stages: mgStages("C07+C01+C02+C03", 16, 12, 16, 250)}
 	plans["C19"] = Plan{Prop: "C19", Level: "exploration",
 		Rule:        "same management histories; at every op boundary (quiescent): each live dataset has exactly one live meta-entity in core.Dataset with its name, deleted / renamed-away names have none, and the items counter equals both the model's and the feed's distinct-id count. Non-trivial = an id was stored twice and a management op happened",
 		Assumptions: assumeStore,
